@@ -95,6 +95,74 @@ def _run_main(ctx):
             types = {x: (rng.choice(SHAPES), rng.choice(SHAPES)) for x in names}
         edges = [(rng.choice(names), rng.choice(names)) for _ in range(rng.randrange(0, 7))]
         one(names, types, edges, "sampled")
+    # the verdict is about the edges only: target nodes of every class (a Flatten with start_dim >= 1, pooling, conv,
+    # neurons, ports) whose declared input shape differs from the source by a leading / trailing unit axis, or not at all
+    import nir as _nir
+    from core import quiet as _quiet
+    for _ in range(ctx.n(80, 400)):
+        src = [rng.randrange(2, 5) for _ in range(rng.randrange(1, 4))]
+        how = rng.choice(["same", "lead1", "trail1", "same", "drop_lead", "other"])
+        tgt = {"same": list(src), "lead1": [1] + src, "trail1": src + [1], "drop_lead": src[1:] or [1],
+               "other": [x + 1 for x in src]}[how]
+        k = rng.choice(["Flatten1", "Flatten0", "SumPool2d", "LIF", "Output", "Input", "Conv1d", "Scale"])
+        try:
+            if k.startswith("Flatten"):
+                t = _nir.Flatten(np.array(tgt), int(k[-1]) if len(tgt) > int(k[-1]) else 0, -1)
+            elif k == "SumPool2d":
+                t = _nir.SumPool2d(1, 1, 0); t.input_type = {"input": np.array(tgt)}; t.output_type = {"output": np.array(tgt)}
+            elif k == "LIF":
+                t = _nir.LIF(*(np.ones(tgt) for _ in range(4)))
+            elif k == "Output":
+                t = _nir.Output(np.array(tgt))
+            elif k == "Input":
+                t = _nir.Input(np.array(tgt))
+            elif k == "Conv1d":
+                t = _nir.Conv1d(None, np.zeros((2, 1, 1)), 1, 0, 1, 1, np.zeros(2)); t.input_type = {"input": np.array(tgt)}
+                t.output_type = {"output": np.array(tgt)}
+            else:
+                t = _nir.Scale(np.ones(tgt))
+            a = _nir.Scale(np.ones(src))
+            graph = _nir.NIRGraph(nodes={"a": a, "t": t}, edges=[("a", "t")])
+        except Exception:
+            ctx.count("construct_rejected"); continue
+        case = {"op": "edge_into_class", "target": k, "source_shape": src, "target_input_shape": tgt}
+        ctx.case(case); ctx.count("edge_into_" + k)
+        want = (how == "same")
+        try:
+            with _quiet():
+                got = graph._check_types() is True
+            err = None
+        except Exception as e:  # noqa
+            got, err = False, type(e).__name__
+        if want != got or (not want and err != "ValueError"):
+            ctx.violate(case, "type check " + ("rejects a consistent graph" if want else "accepts a graph with a mismatched edge"),
+                        {"site": "_check_types", "what": "false-reject" if want else "false-accept", "target": k},
+                        observed={"accepted": got, "error": err})
+    # a graph whose *port* nodes were re-typed after construction (consistently with their neighbours): the verdict is
+    # about the edges as they are now, not about the graph-level snapshot taken at construction
+    for _ in range(ctx.n(40, 200)):
+        s1 = [rng.randrange(2, 5) for _ in range(rng.randrange(1, 3))]; s2 = [x + 1 for x in s1]
+        try:
+            g = _nir.NIRGraph(nodes={"in": _nir.Input(np.array(s1)), "w": _nir.Scale(np.ones(s1)), "out": _nir.Output(np.array(s1))},
+                              edges=[("in", "w"), ("w", "out")])
+            g.nodes["in"].input_type = {"input": np.array(s2)}; g.nodes["in"].output_type = {"output": np.array(s2)}
+            g.nodes["w"] = _nir.Scale(np.ones(s2))
+            g.nodes["out"].input_type = {"input": np.array(s2)}; g.nodes["out"].output_type = {"output": np.array(s2)}
+            if rng.random() < 0.4:
+                g.nodes["out2"] = _nir.Output(np.array(s2)); g.edges.append(("w", "out2"))
+        except Exception:
+            continue
+        case = {"op": "ports_retyped", "from": s1, "to": s2}
+        ctx.case(case); ctx.count("ports_retyped_consistently")
+        try:
+            with _quiet():
+                got = g._check_types() is True
+            err = None
+        except Exception as e:  # noqa
+            got, err = False, type(e).__name__
+        if not got:
+            ctx.violate(case, "type check rejects a consistent graph (ports re-typed after construction)",
+                        {"site": "_check_types", "what": "false-reject", "target": "ports"}, observed={"accepted": got, "error": err})
     # near misses at sizes where a tolerant comparison starts to blur: large axis lengths that differ by one
     for _ in range(ctx.n(60, 300)):
         big = rng.choice([10 ** 5, 10 ** 5 + 1, 262144, 10 ** 6, 2 ** 31, 10 ** 9 + 7, 2 ** 40])
